@@ -20,10 +20,20 @@ open Molli.Util Molli.Model.Text Molli.Model.Mol2Types
 def tt : TypeTable := Molli.Gen.Mol2Types.table
 def bt : BondTable := Molli.Gen.Mol2Types.bonds
 
-def strOfHex? (s : String) : Option Str := do
-  let bs ← bytesOfHex? s
-  let str ← String.fromUTF8? (ByteArray.mk bs.toArray)
-  pure str.toList
+/-- hex decoding with an accumulator (texts of several MiB cross the driver boundary) -/
+def hexBytesTR : List Char → Array UInt8 → Option (Array UInt8)
+  | [], acc => some acc
+  | [_], _ => none
+  | a :: b :: rest, acc =>
+    match hexVal? a, hexVal? b with
+    | some x, some y => hexBytesTR rest (acc.push (UInt8.ofNat (16 * x + y)))
+    | _, _ => none
+
+def strOfHex? (s : String) : Option Str :=
+  if s == "-" then some [] else do
+    let bs ← hexBytesTR s.toList #[]
+    let str ← String.fromUTF8? (ByteArray.mk bs)
+    pure str.toList
 
 def hexOfStr (s : Str) : String := hexTok (String.ofList s).toUTF8.toList
 
